@@ -153,6 +153,7 @@ public:
   Ref<Self> link() const { return Ref<Self>(link_.empty() ? nullptr : &link_[0]); }
   // echo helpers used by the constant-fidelity checks
   double echoD(double v) const { return v; }
+  double add2(double a, double b) const { return a + b; }
   int echoI(int v) const { return v; }
   long long echoL(long long v) const { return v; }
   bool echoB(bool v) const { return v; }
